@@ -9,5 +9,6 @@ CONSTANTS
   QMax = 2
   Win = 3
   Timelies = {0}
+  Fifos = {1}
 INVARIANT NoCrash
 CHECK_DEADLOCK FALSE
